@@ -70,6 +70,7 @@ def cases(tier):
         for btw in BETWEEN:
             out.append({"name": "%s/%s" % (name, btw), "step": name, "between": btw, "iters": iters})
     out.append({"name": "stale-view", "stale_view": True})
+    out.append({"name": "stale-view-gru", "stale_gru": True})
     return out
 
 
@@ -99,6 +100,54 @@ if INV == "(x.sum() * 2.0).backward()" and mid is not None:
 print(bad)
 print('REPRODUCED' if bad else 'NOT-REPRODUCED'); sys.exit(1 if bad else 0)
 """
+
+
+STALE_GRU = """import sys
+import numpy as np
+import mygrad as mg
+from mygrad.nnet.layers import gru
+bad = []
+for layout in ("C", "F"):
+    for view in ("W.T.ravel()", "W.T", "W[::-1]", "W.reshape(-1)"):
+        for inv in ("_ = +W", "W.null_grad()", "W *= 1.0", "(W.sum() * 2.0).backward()"):
+            rng = np.random.RandomState(0)
+            T, N, C, D = 2, 1, 2, 2
+            X = mg.tensor(rng.rand(T, N, C))
+            P = [mg.tensor(rng.rand(*s)) for s in [(C, D), (D, D), (D,)] * 3]
+            W = mg.tensor(np.asfortranarray(rng.rand(D, D)) if layout == "F" else rng.rand(D, D), copy=False); P[1] = W
+            try:
+                v = eval(view)
+            except Exception:
+                continue
+            gru(X, *P).sum().backward()
+            old = None if v.grad is None else v.grad.copy()
+            exec(inv)
+            g = v.grad
+            if inv.endswith(".backward()"):
+                want = eval(view.replace("W", "W.grad"))
+                if g is not None and (g.shape != want.shape or not np.array_equal(g, want)): bad.append((layout, view, inv, "neither None nor the view of the new gradient"))
+            elif g is not None:
+                bad.append((layout, view, inv, "the view of a weight of the recurrent layer still reads %s" % (g.tolist(),)))
+print(bad)
+print('REPRODUCED' if bad else 'NOT-REPRODUCED'); sys.exit(1 if bad else 0)
+"""
+
+
+def run_stale_gru(spec, tier, mg):
+    """views of a weight of the recurrent layer (whose backward pass stores gradients itself), C- and F-ordered weights: once the
+    weight's gradient is gone the views read None.  A concrete lane on the unpatched library in a child process."""
+    res = common.new_result()
+    path = common.write_replay(PROP, "stale_gru", STALE_GRU)
+    ok, out = common.run_replay(path, count=False)
+    res["paths"] = 1
+    if ok is True:
+        res["status"] = common.VIOLATION
+        res["violations"].append({"signature": "stale-view-grad:gru", "replay": path, "summary": "views of a gru weight after the weight's gradient was invalidated: %s" % (out or "")[:300]})
+    elif ok is None:
+        res["status"] = common.INCONCLUSIVE
+        res["notes"].append("gru lane did not run: %s" % (out or "")[-300:])
+    res["sample"] = {"lane": "views x invalidations of a C-/F-ordered gru weight"}
+    return res
 
 
 def run_stale_view(spec, tier, mg):
@@ -154,6 +203,8 @@ def run_case(spec, tier):
     mg = common._WORKER["mg"]
     if spec.get("stale_view"):
         return run_stale_view(spec, tier, mg)
+    if spec.get("stale_gru"):
+        return run_stale_gru(spec, tier, mg)
     _install_recorders(mg)
     res = common.new_result()
     engine = eng_mod.Engine(skip_ties=True)
